@@ -2139,3 +2139,10 @@ Proof.
   split; [|reflexivity]. induction (st_insts st) as [|x t IH]; constructor; [|exact IH].
   split; [reflexivity|intros k; reflexivity].
 Qed.
+
+(* whatever the handlers do - subscribe, unsubscribe, assign - the value stored after `owner.x = v` returns is v *)
+Theorem outer_store_wins fuel sc v w w' obj : assign_re fuel sc v w = Some (w', obj) -> w_val w' = v.
+Proof.
+  destruct fuel as [|f]; cbn [assign_re]; [discriminate|].
+  destruct (walk f sc (w_val w) v 0 _) as [st|]; [|discriminate]. intros H. inversion H. reflexivity.
+Qed.
